@@ -12,7 +12,7 @@ def showVS (n : Nat) (i : Nat) (v : VS) : String :=
   let ds := (List.range n).filterMap (fun d => (v.del d).map (fun sh => s!"{d}:{sh}"))
   let is := (List.range n).filterMap (fun d => (v.sinfo d).map (fun si => s!"{d}:{si.period}:{si.stake}:{si.height}"))
   let ss := v.slashes.map (fun e => s!"{e.height}:{e.period}:{e.fraction}")
-  let st := (if v.bonded then "B" else s!"U{v.ubHeight}") ++ (if v.jailed then "J" else "")
+  let st := (if v.bonded then "B" else if v.unbonded then s!"N{v.ubHeight}" else s!"U{v.ubHeight}") ++ (if v.jailed then "J" else "")
   s!"V{i}[{st} t={v.tokens} s={v.shares} p={v.period} c={v.cur} o={v.outstanding} m={v.commission} " ++
   s!"R({",".intercalate rs}) D({",".intercalate ds}) I({",".intercalate is}) S({",".intercalate ss})]"
 
@@ -20,15 +20,20 @@ def showState (s : State) : String :=
   let vs := (List.range s.nVal).map (fun i => showVS s.nAcc i (s.vs i))
   let al := (List.range s.nVal).flatMap fun v => (List.range s.nAcc).flatMap fun o => (List.range s.nAcc).filterMap fun sp =>
     if s.allow v o sp != 0 then some s!"{v}:{o}:{sp}:{s.allow v o sp}" else none
-  let gs := (List.range s.nAcc).map (fun d => s!"{s.gain d}")
+  let gs := (List.range s.nAcc).map (fun d => s!"{s.gain d + s.returned d}")
   let us := (List.range s.nVal).flatMap fun v => (List.range s.nAcc).filterMap fun d =>
-    let n := (s.ubd.filter (fun u => u.1 == d && u.2.1 == v)).length
-    if n != 0 then some s!"{d}:{v}:{n}" else none
+    let n := s.ubdEntries d v
+    let bal := ((s.ubd.filter (fun u => u.1 == d && u.2.1 == v)).map (fun u => u.2.2.2)).foldl (· + ·) 0
+    let hs := ((s.ubd.filter (fun u => u.1 == d && u.2.1 == v)).map (fun u => u.2.2.1)).eraseDups
+    if n != 0 then some s!"{d}:{v}:{n}:{bal}:{"/".intercalate (hs.map toString)}" else none
   let rds := (List.range s.nVal).flatMap fun src => (List.range s.nVal).flatMap fun dst => (List.range s.nAcc).filterMap fun d =>
-    let n := (s.redel.filter (fun r => r.1 == d && r.2.1 == src && r.2.2.1 == dst)).length
-    if n != 0 then some s!"{d}:{src}:{dst}:{n}" else none
+    let es := s.redel.filter (fun r => r.1 == d && r.2.1 == src && r.2.2.1 == dst)
+    if es.length != 0 then some s!"{d}:{src}:{dst}:{es.length}:{"/".intercalate (es.map (fun r => toString r.2.2.2))}" else none
   s!"h={s.height} " ++ " ".intercalate vs ++
-    s!" A({",".intercalate al}) G({",".intercalate gs}) U({",".intercalate us}) Rd({",".intercalate rds})"
+    s!" A({",".intercalate al}) G({",".intercalate gs}) U({",".intercalate us}) Rd({",".intercalate rds})" ++
+    -- bank side: bonded pool, not-bonded pool, distribution module account (relative to genesis), community pool
+    -- (relative to genesis, 18 decimals), coins burned
+    s!" P({s.bondedPool},{s.notBondedPool},{s.distrIn - s.distrOut},{(List.range s.nVal).foldl (fun a i => a + (s.vs i).dust) 0},{s.burned})"
 
 def errName (transferLike : Bool) (e : Err) : String :=
   if !transferLike then "err" else
@@ -50,6 +55,7 @@ def parseVal (w : String) : Option (Nat × Nat) :=
 def parseOp (ws : List String) : Option (Op × Bool) :=
   match ws with
   | "block" :: [] => some (.block, false)
+  | "mature" :: [] => some (.mature, false)
   | cmd :: args =>
     match args.mapM nat? with
     | none => none
